@@ -632,6 +632,10 @@ def rule_a6(F):
                 what = ("from_raw_parts", g[0])
             elif d.endswith("ConstantValue::new") and g:
                 what = ("ConstantValue::new", g[0])
+            elif g and hir.last(d) in ("new", "size_of", "align_of", "needs_drop", "for_value") and (d.startswith("std::alloc::Layout::") or d.startswith("std::mem::")) \
+                    and (g[0] == "T" or "Transformed" in g[0]):
+                # the element layout / drop need the list's vtable is built from (what generated code and the erased side use as stride)
+                what = (hir.last(d.rsplit("::", 1)[0]) + "::" + hir.last(d), g[0])
             if what is None:
                 continue
             n += 1
@@ -640,6 +644,19 @@ def rule_a6(F):
             if not ok:
                 r.bad(p, "%s of %s" % what, relfile(b.file), t["line"],
                       "%s erases / restores the type `%s`: generated code and the list's vtable work on <T as Value>::Transformed, so for T = Option<_>, Result<_, _>, Verdict<_, _> (and anything containing them) a value in Rust's own layout is compared, copied or read as if it had Roto's layout" % (what[0], what[1]))
+        # the element functions stored in the vtable (clone / drop / eq) are instantiated for the boundary form as well
+        for blk in b.blocks:
+            for st in blk["stmts"]:
+                rv = st.get("rv") or {}
+                o = rv.get("o")
+                c = o[1] if isinstance(o, list) and len(o) == 2 and o[0] == "const" and isinstance(o[1], dict) else None
+                if st["k"] == "assign" and rv.get("k") == "cast" and c and str(c.get("fn") or "").startswith("runtime::extern_") and c.get("gargs"):
+                    n += 1
+                    ga = c["gargs"][0]
+                    r.inst("%s %s #%d" % (short, hir.last(c["fn"]), n), {"fn": p, "line": st.get("line"), "operation": c["fn"], "concrete_type": ga})
+                    if "Transformed" not in ga:
+                        r.bad(p, "%s of %s" % (hir.last(c["fn"]), ga), relfile(b.file), st.get("line") or b.line,
+                              "the list's %s works on `%s`: the elements are stored as <T as Value>::Transformed" % (hir.last(c["fn"]), ga))
     return r
 
 
